@@ -136,28 +136,28 @@ Qed.
 (* ---- the statement productions never return a description fragment ----------------------------- *)
 Lemma walk_value_assign_kind r app s f s' : walk_value_assign r app s = WOk f s' -> forall d, f <> FDesc d.
 Proof.
-  unfold walk_value_assign. destruct (pop_token s) as [t s1|t s1|p|]; try discriminate. cbn [wbind].
+  unfold walk_value_assign. destruct (pop_token s) as [t s1|t wet s1|p|]; try discriminate. cbn [wbind].
   destruct (negb (tt_eqb (ty t) ASSIGN)); [discriminate|].
-  destruct (pop_value_top s1) as [v s2|t2 s2|p|]; try discriminate. cbn [wbind].
-  destruct (end_statement s2) as [c s3|t3 s3|p|]; try discriminate. cbn [wbind].
+  destruct (pop_value_top s1) as [v s2|t2 wet2 s2|p|]; try discriminate. cbn [wbind].
+  destruct (end_statement s2) as [c s3|t3 wet3 s3|p|]; try discriminate. cbn [wbind].
   intros [= <- _] d. discriminate.
 Qed.
 
 Lemma walk_statement_kind s f s' : walk_statement s = WOk f s' -> forall d, f <> FDesc d.
 Proof.
-  unfold walk_statement. destruct (pop_reference s) as [r s1|t s1|p|]; try discriminate. cbn [wbind].
+  unfold walk_statement. destruct (pop_reference s) as [r s1|t wet s1|p|]; try discriminate. cbn [wbind].
   destruct (tt_eqb (next_type s1) ASSIGN); [apply walk_value_assign_kind|].
   destruct (tt_eqb (next_type s1) PLUS).
-  - destruct (pop_token s1) as [t s2|t s2|p|]; try discriminate. cbn [wbind].
+  - destruct (pop_token s1) as [t s2|t wet s2|p|]; try discriminate. cbn [wbind].
     destruct (negb (tt_eqb (next_type s2) ASSIGN)); [|apply walk_value_assign_kind].
-    destruct (pop_token s2) as [t3 s3|t3 s3|p|]; discriminate.
-  - destruct (tags_loop _ [] s1) as [tags s2|t s2|p|]; try discriminate. cbn [wbind].
-    destruct (quals_loop _ [] s2) as [quals s3|t s3|p|]; try discriminate. cbn [wbind].
+    destruct (pop_token s2) as [t3 s3|t3 wet3 s3|p|]; discriminate.
+  - destruct (tags_loop _ [] s1) as [tags s2|t wet s2|p|]; try discriminate. cbn [wbind].
+    destruct (quals_loop _ [] s2) as [quals s3|t wet s3|p|]; try discriminate. cbn [wbind].
     destruct (next_type s3);
-      try (destruct (pop_token s3) as [t4 s4|t4 s4|p|]; try discriminate; cbn [wbind];
-           try (destruct (end_statement s4) as [c s5|t5 s5|p|]; try discriminate; cbn [wbind]);
+      try (destruct (pop_token s3) as [t4 s4|t4 wet4 s4|p|]; try discriminate; cbn [wbind];
+           try (destruct (end_statement s4) as [c s5|t5 wet5 s5|p|]; try discriminate; cbn [wbind]);
            intros [= <- _] d; discriminate);
-      try (destruct (end_statement s3) as [c s4|t4 s4|p|]; try discriminate; cbn [wbind]; intros [= <- _] d; discriminate);
+      try (destruct (end_statement s3) as [c s4|t4 wet4 s4|p|]; try discriminate; cbn [wbind]; intros [= <- _] d; discriminate);
       try (intros [= <- _] d; discriminate).
 Qed.
 
@@ -194,7 +194,7 @@ Proof.
   assert (Hr : wrest s <> []) by (apply (next_type_not_eof inp); auto).
   assert (Hl : wlive s) by (left; exact Hr).
   pose proof (next_fragment_spec inp s Hok Hl) as Hn.
-  destruct (next_fragment s) as [fo s1|t s1|p|] eqn:En; cbn in Hn; try contradiction; [|intros H; discriminate].
+  destruct (next_fragment s) as [fo s1|t wet s1|p|] eqn:En; cbn in Hn; try contradiction; [|intros H; discriminate].
   destruct Hn as (H01 & _ & Hlen). specialize (Hlen Hr).
   specialize (IH s1). destruct (walk_fragments_loop f true s1) as [fs1 ds1|p|] eqn:Ew; try discriminate.
   intros Heq.
@@ -224,15 +224,15 @@ Proof.
       destruct Hg0 as (Hlt & _). specialize (Hlt Hty). lia.
     + right. right. exists t0. split; [reflexivity|]. split; [exact Et0|]. rewrite Hp in Hg0.
       destruct Hg0 as (Hlt & _). specialize (Hlt Hty). lia.
-  - (* IDENT *) destruct (walk_statement s) as [f0 s0|t1 s0|p|] eqn:Es; try discriminate. cbn [wbind] in En.
+  - (* IDENT *) destruct (walk_statement s) as [f0 s0|t1 wet1 s0|p|] eqn:Es; try discriminate. cbn [wbind] in En.
     injection En as <- <-. apply (Hother f0 eq_refl). eapply walk_statement_kind; eauto.
-  - (* BOOL *) destruct (walk_statement s) as [f0 s0|t1 s0|p|] eqn:Es; try discriminate. cbn [wbind] in En.
+  - (* BOOL *) destruct (walk_statement s) as [f0 s0|t1 wet1 s0|p|] eqn:Es; try discriminate. cbn [wbind] in En.
     injection En as <- <-. apply (Hother f0 eq_refl). eapply walk_statement_kind; eauto.
   - (* COMMENT *) rewrite Epop in En. cbn [wbind] in En. injection En as <- <-. apply (Hother _ eq_refl). discriminate.
   - (* BLOCK_COMMENT *) rewrite Epop in En. cbn [wbind] in En. injection En as <- <-. apply (Hother _ eq_refl). discriminate.
   - (* DESCRIPTION *)
     unfold pop_description in En.
-    destruct (pop_description_loop (S (length (wrest s))) [] s) as [d s0|t1 s0|p|] eqn:Ed; try discriminate.
+    destruct (pop_description_loop (S (length (wrest s))) [] s) as [d s0|t1 wet1 s0|p|] eqn:Ed; try discriminate.
     cbn [wbind] in En. injection En as <- <-. injection Heq as <-.
     destruct (pop_description_loop_stop _ _ _ _ _ ltac:(unfold next_type; rewrite Hrs; exact Et0) Ed) as ((p & Hp & Hpt & Hpe) & Hstop & Hstart).
     rewrite Hrs in Hstart. split.
